@@ -21,7 +21,7 @@ def run(ctx):
                 table[k] = table.get(k, 0) + v
     start_states = next((p.get("start_states") for p in parts if p and p.get("start_states")), [])
     ctx.log("stopenum: %d plans, %d (start|site) cells reached, %d scenarios" % (plans, len(table), ecov["scenarios"]))
-    cov, viol, samples = shm.run_sched(ctx, b, "C04", 20000 if q else 1000000)
+    cov, viol, samples = shm.run_sched(ctx, b, "C04", 20000 if q else 600000)
     ctx.log("sched: %d scenarios, stops %d restarts %d takeovers %d wipes %d" % (cov["scenarios"], cov["stops"], cov["restarts"], cov["takeovers"], cov["wipes"]))
     magg, mviol, msamples, mlost = shm.run_miri(ctx, "c04", 16 if q else 256, 20)
     ctx.log("miri c04: %s lost %d" % (magg, mlost))
